@@ -188,19 +188,24 @@ def w_refine(job):
         lvals, rvals = gen_tables(job['gen'], pres)
     L = mkframe(lvals, pres, prefix='l')
     R = mkframe(rvals, pres, prefix='r')
-    lm, rm = masks_for(lvals, rvals, ['ws', True])
+    spec = job.get('tok', ['ws', True])
+    lm, rm = masks_for(lvals, rvals, spec)
     res = {}
     viol = []
     nviol = 0
     names = ('Position', 'Prefix') + (() if job.get('nosize') else ('Size',)) + (('Overlap',) if meas == 'OVERLAP' else ())
     for name in names:
-        f = make_filter(name, make_tokenizer(['ws', True]), meas, t, job.get('ae', True))
+        tok = QgramTokenizer(qval=spec[1], padding=spec[2], return_set=spec[3]) if spec[0] == 'qg' \
+            else make_tokenizer(spec)
+        f = make_filter(name, tok, meas, t, job.get('ae', True))
         out = call_filter_tables(f, L, R, n_jobs=job.get('n_jobs', 1), score=False if name == 'Overlap' else None)
         res[name], _ = pairs_of(out, L, R)
     for name in names:
         if name == 'Size':
             continue
         for (i, j) in res[name]:
+            if meas == 'EDIT_DISTANCE':
+                continue          # the no-common-token clause is stated for the set measures' filters
             if (lm[i] & rm[j]) == 0 and not (lm[i] == 0 and rm[j] == 0):
                 nviol += 1
                 if len(viol) < MAXV:
@@ -280,8 +285,12 @@ def layers(tier):
             for lo in range(0, nsc, 500):
                 jobs.append({'gen': {'gen': 'tiny', 'k': k, 'r': r, 'lo': lo, 'hi': min(lo + 500, nsc)},
                              'meas': meas, 't': t, 'pres': pres, 'nosize': True})
+    for q, padding in ((2, True), (3, False), (1, False), (2, False)):
+        for t in (0, 1, 2, 3):
+            jobs.append({'gen': {'gen': 'struniv', 'alpha': 'ab', 'maxlen': 5 if quick else 6}, 'meas': 'EDIT_DISTANCE',
+                         't': t, 'tok': ['qg', q, padding, False], 'pres': pres})
     Ls.append(Layer('refinement', 'checks.c14:w_refine', jobs,
-                    'filter_tables on UNIV(%d), windowed universes and packed tiny tables: Position subset of '
+                    'filter_tables on UNIV(%d), windowed universes, packed tiny tables and (EDIT_DISTANCE) STR({a,b},l) under q-gram bags: Position subset of '
                     'Prefix and of Size (same parameters); no listed pair without a common token' % Kt,
                     min_nontrivial=1000, chunksize=2))
     return Ls
